@@ -275,6 +275,8 @@ def shared_then_writer_schedules(rng):
     for (a, b) in [(K_REF, K_REF), (K_REF, K_OPT), (K_OPT, K_REF), (K_OPT, K_OPT)]:
         for writer_first in (False, True):
             c, d = rng.sample(range(len(COMPS)), 2)
+            while COMPS[c] == "Z":
+                c, d = rng.sample(range(len(COMPS)), 2)
             both = Sys(False, [(K_ID, None), (a, c)] if rng.random() < 0.5 else [(a, c)], ("none",), [], [(b, c)])
             writer = Sys(rng.random() < 0.3, [(rng.choice([K_MUT, K_OPTMUT]), c)], ("none",), [], [])
             other = Sys(False, [(K_MUT, d)], ("none",), [], [])
